@@ -537,7 +537,9 @@ pub fn build(plan: &Plan) -> Model {
             (None, Some(EndOfConn::Any))
         } else {
             let certs = match &plan.cfg.tls {
-                Some(t) if t.cert => Some(vec![crate::tlsfix::client_cert().to_vec()]),
+                Some(t) if t.cert && plan.cfg.tls_require_cert => {
+                    Some(vec![crate::tlsfix::client_cert().to_vec()])
+                }
                 _ => None,
             };
             let cb = Cb::Auth { user, certs };
